@@ -312,6 +312,12 @@ def oracle(cap, init, ops):
                     added_costs.append(wcost)
                 elif now != before:
                     return f"{where}: not added but the pool changed"
+                # the caller re-uses its list object for the next candidate: the stored route
+                # (and with it its cost / cover column) must not change underneath
+                del r[1:-1]
+                r.append(0)
+                if [list(x) for x in p.routes] != now:
+                    return f"{where}: the stored route changed when the caller modified its own list afterwards (stored route aliases the argument)"
         else:
             r = apply(p, op)
         msg = cover_problem(p, added_costs)
